@@ -5,6 +5,34 @@ import os
 import vf
 
 
+def poly_extra(chk, binpath, d, tier):
+    """Growth beyond the statement: polygonal face lines (ObjPoly.tla: refuse, or triangulate as a fan).  Every file
+    TLC enumerates is parsed by the real parse_obj / read_obj; rejections are notes, never alarms."""
+    import collections
+    cons = {"Export": "TRUE", "Wide": "TRUE" if tier == "thorough" else "FALSE"}
+    cfg = vf.write_cfg(os.path.join(d, "MC_ObjPoly.cfg"), cons, invariants=["Laws", "ExportInv"])
+    r = vf.tlc("MC_ObjPoly", cfg, workers=8, gc="parallel", heap="4g")
+    chk.add_mc("MC_ObjPoly (extra coverage)", r, cons)
+    cases = os.path.join(d, "poly_cases.ndjson")
+    n = 0
+    with open(cases, "w") as f:
+        for ln in r.prints:
+            t = vf.parse_print(ln)
+            if t and t[0] == "REPLAY":
+                bs = json.loads(t[1])["bytes"]
+                f.write(json.dumps({"k": "y%d" % n, "via": "parse_obj" if n % 2 else "read_obj", "bytes": bs}, separators=(",", ":")) + "\n")
+                n += 1
+    vf.run_harness(binpath, ["obj", "exec", cases], stdout_path=cases + ".trace")
+    nrec, nev, bad = vf.validate_trace("TV_ObjPoly", cases + ".trace", jvms=8)
+    why = collections.Counter("%s (last face line: %s indices)" % (b["info"][0], b["info"][1]) for b in bad)
+    vf.log("[tv] polygon faces: %d calls judged by TV_ObjPoly: %d rejected %s" % (nrec, len(bad), dict(why)))
+    for w, c in sorted(why.items()):
+        ex = next(b for b in bad if "%s (last face line: %s indices)" % (b["info"][0], b["info"][1]) == w)
+        chk.note("extra-coverage: %d OBJ files with polygon faces rejected: %s, e.g. %s -> faces %s" % (c, w, ex["key"], str(ex["info"][2])[:120]))
+    chk.cov.setdefault("extra_coverage", {}).update({"poly_files_replayed": n, "poly_calls_validated": nrec,
+                                                     "poly_rejected_by_clause": dict(why)})
+
+
 def run(tier):
     chk = vf.Check("C14", tier)
     binpath = vf.build_harness()
@@ -51,6 +79,7 @@ def run(tier):
     vf.exec_and_validate(chk, binpath, "obj", "TV_ObjBig", big, jvms=2, what="large file")
     vf.exec_and_validate(chk, plain, "obj", "TV_ObjBig", big, jvms=2, what="large file (plain release build)")
     chk.cov["distinct_nontrivial"] = chk.cov["traces_validated_against_impl"]
+    poly_extra(chk, binpath, d, tier)
     chk.cov["trusted_base"] = ["TLC + CommunityModules (Json, IOUtils)", "harness/src/obj.rs recorder"]
     chk.assumptions = ["coordinates are judged exactly for literals with <= 6 mantissa digits and a one-digit "
                        "exponent whose value*1024 is an integer < 2^24; other literals, polygons with more than "
